@@ -123,6 +123,9 @@ func (ip *IPv4) SerializeTo(b gopacket.SerializeBuffer, opts gopacket.SerializeO
 	copy(bytes[12:16], ip.SrcIP)
 	copy(bytes[16:20], ip.DstIP)
 
+	// PrependBytes does not zero the returned slice: clear the option area so
+	// that alignment padding and short option data never carry stale bytes.
+	clear(bytes[20:])
 	curLocation := 20
 	// Now, we will encode the options
 	for _, opt := range ip.Options {
